@@ -284,9 +284,6 @@ Proof.
   rewrite (norm_endpoints_idem _ _ He). cbn [bind]. now rewrite round_ms_idem.
 Qed.
 
-Definition binding_of_any (x : any_endpoint) : string :=
-  match x with EPlain e => ep_binding e | EIndexed e => ie_binding e end.
-
 (* an endpoint of a standard binding that survives the generation is unchanged *)
 Lemma standard_endpoint_preserved x x' :
   any_endpoint_check x = Ok x' -> standard (binding_of_any x) = true -> x' = x.
